@@ -3,6 +3,7 @@ import OrbitModel.Proofs.GenEqClose
 import OrbitModel.Proofs.EmitterStop
 import OrbitModel.Proofs.CrashSummary
 import OrbitModel.Proofs.GenEqWatch
+import OrbitModel.Proofs.BusClose
 /-!
 # C18 — Close and Drop are clean: idempotent, leak-free, scoped to one database
 
@@ -67,5 +68,26 @@ stayed on the topic after the store was closed, and its peers saw it neither lea
 the harness counts the open subscriptions of its pubsub API after every store is closed) -/
 theorem watcher_closes_its_subscription_tied_to_go_text : Gen.watchMessagesOrder = Order.watchMessages :=
   gen_watchMessages_order
+
+/-- **`Close` in the middle of a load and of a replication** (after the `fix:` commit, finding F55), on
+the model of one subscription of the event bus (`Model/BusClose.lean`: the main loop's subscription
+to the replicator's events — 128 slots; the replicator inside `emit`, holding the read lock of the bus
+node, with events left to hand over; the main loop not reading because it waits for the join mutex a
+`Load` holds). `Replicator().Stop()` closes the replicator's emitters, which needs that lock:
+* when `Close` closes the subscription first (a typed subscription drains its channel while it closes:
+  `drain := true`), the emitter gets through and the lock is free — for every capacity and every
+  number of pending events;
+* before the repair nobody closed it while the main loop was held up: the state is a deadlock that no
+  action of anybody leaves (`Close` returned only once the `Load` got its block).
+Replayed on the real store: `corpus/C18/f55` (`first=hang` before). -/
+theorem close_mid_load_mid_replication_gets_through (s : BusClose.St) (h : BusClose.Stuck s) (hcap : s.cap > 0) :
+    ((BusClose.run true s (BusClose.unwind s.pending)).closed = true ∧
+      (BusClose.run true s (BusClose.unwind s.pending)).pending = 0) ∧
+    (∀ acts, BusClose.run false s acts = s) :=
+  ⟨BusClose.close_gets_through s h hcap, BusClose.stuck_forever s h⟩
+
+/-- the premise with the real numbers: 128 slots full, the replicator inside `emit` with one more event -/
+example : BusClose.Stuck { cap := 128, chan := 128, pending := 1, reading := false, closing := true } := by
+  unfold BusClose.Stuck; decide
 
 end Orbit.C18
